@@ -201,7 +201,7 @@ def _range_bounds(eng, rv, n):
         a = eng.concretize(rv.fields[0], 0, n + 1); b = n
     elif ty == 'RangeTo':
         a = 0; b = eng.concretize(rv.fields[0], 0, n + 1)
-    elif ty == 'RangeFull' or isinstance(rv, Opaque):
+    elif ty == 'RangeFull' or isinstance(rv, Opaque) or (isinstance(rv, FnItem) and rv.name.endswith('RangeFull')):
         a, b = 0, n
     elif ty == 'RangeInclusive':
         a = eng.concretize(rv.fields[0], 0, n + 1)
@@ -329,21 +329,31 @@ def seq_eq(eng, a, b, fr):
     return items_eq(eng, xa, xb)
 
 
-def items_eq(eng, xa, xb):
+def items_eq(eng, xa, xb, _memo=None):
     if len(xa) != len(xb):
         return z3.BoolVal(False)
     if not xa:
         return z3.BoolVal(True)
+    memo = {} if _memo is None else _memo
     conj = []
+    seen = set()
     for p, q in zip(xa, xb):
         if isinstance(p, Int) and isinstance(q, Int):
             conj.append(p.e == q.e)
-        elif hasattr(p, 'eq_formula'):
-            conj.append(p.eq_formula(eng, q))
-        elif hasattr(q, 'eq_formula'):
-            conj.append(q.eq_formula(eng, p))
+        elif hasattr(p, 'pre') and hasattr(q, 'pre'):
+            if p.i != q.i:
+                raise Unsupported('comparison of digest bytes at different offsets')
+            k = (id(p.pre), id(q.pre))
+            if k in seen:
+                continue
+            seen.add(k)
+            if k not in memo:
+                memo[k] = items_eq(eng, p.pre, q.pre, memo)
+            conj.append(memo[k])
+        elif hasattr(p, 'pre') or hasattr(q, 'pre'):
+            raise Unsupported('comparison of a digest byte with an ordinary byte')
         elif isinstance(p, Vec) and isinstance(q, Vec):
-            conj.append(items_eq(eng, p.items, q.items))
+            conj.append(items_eq(eng, p.items, q.items, memo))
         else:
             raise Unsupported('element equality of %r / %r' % (p, q))
     return z3.And(*conj) if len(conj) > 1 else conj[0]
